@@ -206,7 +206,15 @@ func (vc *VC) applyContractOn(callee *ssa.Function, args []Term, preIn *Heap, r 
 	post := pre.clone()
 	vc.havocFor(post, ms)
 	res := vc.resultTerms(callee.Signature, post, r, label)
-	if c != nil && c.Props["records"] != "" && len(res) > 0 {
+	if c != nil && strings.HasPrefix(c.Props["records"], "arg ") {
+		// ghost: the value of the named parameter at the latest call of this function
+		pn := strings.Fields(c.Props["records"])[1]
+		if t, ok := env.vars[pn]; ok {
+			g := "Garg_" + sanitize(callee.Name())
+			vc.compDecl(g, t.Sort)
+			vc.set(post, g, t.S)
+		}
+	} else if c != nil && c.Props["records"] != "" && len(res) > 0 {
 		// ghost: the first result of the latest call of this function
 		g := "Gres_" + sanitize(callee.Name())
 		vc.compDecl(g, res[0].Sort)
